@@ -202,7 +202,7 @@ class ChallengeField(Field):
             super().__setdefault__(cfg)
             return
 
-        if isinstance(self.default, str):
+        if isinstance(self.default, (str, bytes)):
             val = DigestValue.create(self.default, self.algorithm)
         elif isinstance(self.default, DigestValue):
             val = self.default
